@@ -1,18 +1,34 @@
 /-
   C01 — Arbitrary input files are processed without panic, abort or hang.
 
-  There is no single end-to-end model of `pdf_printer`'s glue.  What is proved is the
-  property's *logical core stage by stage*: for every input, every modelled stage of the
-  pipeline ends in a value or an error — never in one of the model's explicit panic sites
-  (Rust `unwrap`, `assert!`, slice/index, arithmetic overflow, `unreachable!`), and its loops
-  run within an explicit fuel bound.  The stage theorems live in the Props files of the
-  properties that own the stage models; this file gathers them into one obligation so that
-  a stage model losing its no-panic theorem breaks C01 as well.
+  END-TO-END: `Pipeline.run : Bytes → Outcome` (Model/Pipeline.lean) models `pdf_printer` from the bytes of the
+  file to the exit status: loader, dump_root, type check against the shipped catalog specification, page DOM,
+  per-page decoding and text extraction, with the glue of src/bin/pdf_printer.rs.  Every Rust partial operation
+  of every stage model and every fuel of a loop modelled with fuel is an explicit `panic` outcome, so
 
-  `pipeline_stages_never_panic_partial` leaves out (named in CFG["partial"]): the composition
-  glue in src/bin/pdf_printer.rs and pdf_traverse_xref.rs between the stages, the machine stack,
-  zlib / jpeg-decoder / regex internals, allocation failure and wall-clock time.  Those are
-  covered only by running the real binary on adversarial documents (the correspondence side).
+      pipeline_never_panics_partial   for EVERY byte string below 2^62 bytes, `run bs` is `completed` or
+                                      `rejected` - never a panic site, never an exhausted fuel
+
+  is a real obligation.  It is assembled from the stage theorems: C03 loader (with C16, C05, C13, C14, C07 inside),
+  dump_root's traversal (proved here: Lemmas/Pipeline.lean), C09 work bound + the two `unreachable!` sites of the
+  machine excluded for the regenerated shipped specification (Lemmas/Pipeline.lean), C11 page DOM, and the text
+  extractor's totality for all inputs (proved here: Lemmas/ContentTotal.lean).
+  `_partial`: ONE hypothesis is inherited from C03 and not discharged - `DecodersTotal` (the executable zlib
+  inflate model never ends in its own fuel outcome and no decoder returns more than 2^63 bytes).
+
+      process_file_never_panics       everything after the loader, for EVERY loaded context (no size bound)
+      extract_never_panics            the text extractor is total: full strength, no hypothesis
+      dump_root_terminates            the breadth-first traversal finishes within |objU|+1 dequeues on every graph
+      shipped_check_total             check_type on the shipped specification: no `unreachable!`, within workBound
+      pipeline_fuel_bound_partial     the explicit budgets of the pipeline's loops, each a function of the loaded
+                                      document; more fuel never changes a result
+      parseDataE_agrees               the loader variant used by the pipeline (it also returns the `encrypted`
+                                      flag and the nesting depth) agrees with Loader.parseData (C03/C04's model)
+      pipeline_stages_never_panic_partial   (kept) the stage theorems gathered into one obligation, so that a
+                                      stage model losing its no-panic theorem breaks C01 as well
+
+  NOT covered by any theorem (only by running the real binary): the machine stack actually consumed,
+  zlib / jpeg-decoder / regex internals, allocation failure, wall-clock time, stdout being closed.
 -/
 import Parsley.Props.C16
 import Parsley.Props.C05
@@ -22,6 +38,8 @@ import Parsley.Props.C14
 import Parsley.Props.C11
 import Parsley.Props.C09
 import Parsley.Props.C03
+import Parsley.Lemmas.Pipeline
+import Parsley.Lemmas.ContentTotal
 namespace Parsley.C01
 open Parsley
 
@@ -64,5 +82,222 @@ theorem pipeline_stages_never_panic_partial :
    C11.dom_terminates,
    C03.load_never_panics_partial,
    fun g ctx o c => C09.machine_terminates TC.Fix.tree rfl g ctx o c⟩
+
+/-! ## the end-to-end theorem -/
+
+/-- the loader variant of the pipeline agrees with the loader model of C03/C04 on everything that one returns -/
+theorem parseDataE_agrees (data : Bytes) :
+    Pipeline.Out.map Pipeline.LoadedE.toLoaded (Pipeline.parseDataE data) = Loader.parseData data :=
+  PipelineLemmas.parseDataE_eq data
+
+theorem parseDataE_no_panic (data : Bytes) (hlen : data.length < 2 ^ 62) (hdec : LoaderNoPanic.DecodersTotal)
+    (p : String) : Pipeline.parseDataE data ≠ .panic p := by
+  intro h
+  have h1 := parseDataE_agrees data
+  rw [h] at h1
+  have h2 := C03.load_never_panics_partial data hlen hdec
+  rw [← h1] at h2
+  simp [Pipeline.Out.map, Loader.Out.isPanic] at h2
+
+theorem collect_no_panic (hdec : LoaderNoPanic.DecodersTotal) :
+    ∀ (cs : List (PageDom.Src × Obj.Obj)) (buf : Bytes) (p : String), Pipeline.collect cs buf ≠ .panic p := by
+  intro cs
+  induction cs with
+  | nil => intro buf p; simp [Pipeline.collect]
+  | cons c t ih =>
+    intro buf p
+    obtain ⟨src, o⟩ := c
+    cases o <;> simp only [Pipeline.collect] <;> try (intro h; cases h)
+    rename_i kvs sc
+    split
+    · exact ih _ _
+    · simp
+    · rename_i q hq; exact absurd hq (PipelineLemmas.decodeObjStream_np hdec _ _ _)
+
+theorem pagesLoop_no_panic (hdec : LoaderNoPanic.DecodersTotal) (d : Nat) :
+    ∀ (pages : List (PageDom.ObjId × PageDom.PageKid)), (Pipeline.pagesLoop d pages).isPanic = false := by
+  intro pages
+  induction pages with
+  | nil => rfl
+  | cons pg t ih =>
+    obtain ⟨id, kid⟩ := pg
+    cases kid with
+    | node n => simpa [Pipeline.pagesLoop] using ih
+    | leaf p =>
+      simp only [Pipeline.pagesLoop]
+      split
+      · rfl
+      · split
+        · rename_i q hq; exact absurd hq (collect_no_panic hdec _ _ _)
+        · rfl
+        · exact ih
+        · split
+          · exact ih
+          · rfl
+          · rename_i q hq; exact absurd hq (ContentTotal.extract_never_panics _ _ _)
+
+theorem afterCheck_no_panic (hdec : LoaderNoPanic.DecodersTotal) (l : Pipeline.LoadedE) (rootObj : Obj.Obj)
+    (tc : TC.Outcome) (h1 : ∀ s, tc ≠ .panic s) (h2 : tc ≠ .outOfFuel) :
+    (Pipeline.afterCheck l rootObj tc).isPanic = false := by
+  cases tc with
+  | reject k => rfl
+  | panic s => exact absurd rfl (h1 s)
+  | outOfFuel => exact absurd rfl h2
+  | accept =>
+    simp only [Pipeline.afterCheck]
+    split
+    · rfl
+    · rename_i q hq; exact absurd hq (C11.dom_never_panics _ _ _)
+    · exact pagesLoop_no_panic hdec _ _
+
+theorem processFile_no_panic (hdec : LoaderNoPanic.DecodersTotal) (l : Pipeline.LoadedE) :
+    (Pipeline.processFile l).isPanic = false := by
+  unfold Pipeline.processFile
+  split
+  · rfl
+  · rename_i rootObj _
+    rw [PipelineLemmas.dumpRoot_ok l.defs rootObj hdec l.enc]
+    exact afterCheck_no_panic hdec l rootObj _ (PipelineTC.typeCheck_np _ _) (PipelineTC.typeCheck_fuel _ _)
+
+/-- **C01, end to end.**  FULL STATEMENT WANTED: for every byte string, `Pipeline.run bs` is `completed` or
+    `rejected`.  PROVED: exactly that for every file below 2^62 bytes, under the one hypothesis inherited from the
+    loader theorem of C03: the stream decoders are total (`DecodersTotal`: the zlib inflate model does not run out
+    of its own fuel and decoders return at most 2^63 bytes).  No other panic site or fuel of any stage is
+    reachable: loader, dump_root traversal, type-check machine (work bound, `unreachable!` sites), page DOM,
+    content decoding glue, text extractor (all three fuels). -/
+theorem pipeline_never_panics_partial (bs : Bytes) (hlen : bs.length < 2 ^ 62) (hdec : LoaderNoPanic.DecodersTotal) :
+    Pipeline.run bs = .completed ∨ Pipeline.run bs = .rejected := by
+  have h : (Pipeline.run bs).isPanic = false := by
+    unfold Pipeline.run
+    split
+    · rfl
+    · rename_i q hq; exact absurd hq (parseDataE_no_panic bs hlen hdec q)
+    · exact processFile_no_panic hdec _
+  cases hr : Pipeline.run bs with
+  | completed => exact Or.inl rfl
+  | rejected => exact Or.inr rfl
+  | panic s => rw [hr] at h; cases h
+
+/-- the stages after the loader need no size bound -/
+theorem process_file_never_panics (hdec : LoaderNoPanic.DecodersTotal) (l : Pipeline.LoadedE) :
+    Pipeline.processFile l = .completed ∨ Pipeline.processFile l = .rejected := by
+  have h := processFile_no_panic hdec l
+  cases hr : Pipeline.processFile l with
+  | completed => exact Or.inl rfl
+  | rejected => exact Or.inr rfl
+  | panic s => rw [hr] at h; cases h
+
+/-- the text extractor is total on every input (full strength: no hypothesis) -/
+theorem extract_never_panics (d : Nat) (s : Bytes) (p : String) : Content.extract d s ≠ .panic p :=
+  ContentTotal.extract_never_panics d s p
+
+/-- dump_root never panics and always finishes within its budget, on every definition map and root -/
+theorem dump_root_terminates (hdec : LoaderNoPanic.DecodersTotal) (enc : Bool) (defs : ObjStm.Defs) (root : Obj.Obj) :
+    Pipeline.dumpRoot enc defs root = .ok () :=
+  PipelineLemmas.dumpRoot_ok defs root hdec enc
+
+/-- the type-check machine on the shipped specification: neither `unreachable!` site, never out of its work bound -/
+theorem shipped_check_total (g : TC.Graph) (o : TC.Obj) :
+    (∀ s, Pipeline.typeCheck g o ≠ .panic s) ∧ Pipeline.typeCheck g o ≠ .outOfFuel :=
+  ⟨PipelineTC.typeCheck_np g o, PipelineTC.typeCheck_fuel g o⟩
+
+/-- **explicit budgets** of the loops of the pipeline, each in terms of the loaded document.
+    FULL STATEMENT WANTED: one closed-form step bound in |bs|.  PROVED: the per-loop budgets below and that
+    more fuel never changes a result; they are functions of the loaded definitions, not of |bs| alone, because an
+    object stream may decode to more bytes than the file has (the loader's own loops are bounded in |bs|:
+    C04.chain_length_bounded, and the two passes are structural in the entry list). -/
+theorem pipeline_fuel_bound_partial :
+    -- dump_root: at most |objU| objects are dequeued, for every graph (cyclic ones included)
+    (∀ (_ : LoaderNoPanic.DecodersTotal) (enc : Bool) (defs : ObjStm.Defs) (root : Obj.Obj) (f : Nat),
+        Pipeline.bfsFuel defs root ≤ f → Pipeline.bfs enc defs f [root] [Pipeline.toTC root] = .ok ()) ∧
+    -- check_type on the shipped specification: within workBound iterations; any larger fuel gives the same run
+    (∀ (g : TC.Graph) (o : TC.Obj) (m : Nat),
+        TC.Term.workBound TC.Fix.tree g Pipeline.shippedCtx o Pipeline.shippedCat ≤ m →
+        TC.checkTypeFuel TC.Fix.tree g Pipeline.shippedCtx m o Pipeline.shippedCat =
+          TC.checkTypeFuel TC.Fix.tree g Pipeline.shippedCtx
+            (TC.Term.workBound TC.Fix.tree g Pipeline.shippedCtx o Pipeline.shippedCat) o Pipeline.shippedCat) ∧
+    -- to_page_dom: within |defs|+1 iterations
+    (∀ (defs : PageDom.Defs) (cat : Obj.Obj) (fuel : Nat), defs.length + 1 ≤ fuel →
+        PageDom.toPageDomFuel defs fuel cat = PageDom.toPageDom defs cat) ∧
+    -- text extraction: the budgets |content|+1 (loop) and 2|content|+2 (object parser) are never exhausted
+    (∀ (d : Nat) (s : Bytes) (p : String), Content.extract d s ≠ .panic p) := by
+  refine ⟨?_, ?_, ?_, extract_never_panics⟩
+  · intro hdec enc defs root f hf
+    apply PipelineLemmas.bfs_ok defs root hdec enc
+    · refine ⟨?_, ?_, by simp⟩
+      · intro o ho
+        simp only [List.mem_singleton] at ho
+        subst ho
+        simp [TC.Term.objU, TC.Term.objSubs_self]
+      · intro x hx
+        simp only [List.mem_singleton] at hx
+        subst hx
+        simp [TC.Term.objU, TC.Term.objSubs_self]
+    · unfold Pipeline.bfsFuel at hf
+      have h1 : 1 ≤ (TC.Term.objU (Pipeline.toGraph defs) (Pipeline.toTC root)).length := by simp [TC.Term.objU]
+      show [root].length + ((TC.Term.objU (Pipeline.toGraph defs) (Pipeline.toTC root)).length - [Pipeline.toTC root].length) < f
+      simp only [List.length_cons, List.length_nil]
+      omega
+  · intro g o m hm
+    exact (C09.machine_work_bound TC.Fix.tree rfl g Pipeline.shippedCtx o Pipeline.shippedCat).2 m hm
+  · intro defs cat fuel h
+    exact (C11.dom_terminates defs cat fuel h).1
+
+/-! ## non-vacuity: concrete runs of the stages on one complete document, evaluated by the KERNEL
+    (tests of the definitions on an instance, not theorems about all files).  The whole `Pipeline.run` on this
+    document and on ~3000 others is executed, compiled, by the correspondence run and must equal the exit
+    status of the real binary (corpus/C01/tiny_complete.case). -/
+
+/-- a complete one-page document: catalog, page tree, page, content stream `BT (Hi) Tj ET q Q`, standard font -/
+def tinyDoc : Bytes := [
+  37, 80, 68, 70, 45, 49, 46, 52, 10, 49, 32, 48, 32, 111, 98, 106, 10, 60, 60, 32, 47, 84, 121, 112, 101, 32,
+  47, 67, 97, 116, 97, 108, 111, 103, 32, 47, 80, 97, 103, 101, 115, 32, 50, 32, 48, 32, 82, 32, 62, 62, 10,
+  101, 110, 100, 111, 98, 106, 10, 50, 32, 48, 32, 111, 98, 106, 10, 60, 60, 32, 47, 84, 121, 112, 101, 32, 47,
+  80, 97, 103, 101, 115, 32, 47, 75, 105, 100, 115, 32, 91, 51, 32, 48, 32, 82, 93, 32, 47, 67, 111, 117, 110,
+  116, 32, 49, 32, 62, 62, 10, 101, 110, 100, 111, 98, 106, 10, 51, 32, 48, 32, 111, 98, 106, 10, 60, 60, 32,
+  47, 84, 121, 112, 101, 32, 47, 80, 97, 103, 101, 32, 47, 80, 97, 114, 101, 110, 116, 32, 50, 32, 48, 32, 82,
+  32, 47, 77, 101, 100, 105, 97, 66, 111, 120, 32, 91, 48, 32, 48, 32, 57, 32, 57, 93, 32, 47, 67, 111, 110,
+  116, 101, 110, 116, 115, 32, 52, 32, 48, 32, 82, 32, 47, 82, 101, 115, 111, 117, 114, 99, 101, 115, 32, 60,
+  60, 32, 47, 70, 111, 110, 116, 32, 60, 60, 32, 47, 70, 49, 32, 53, 32, 48, 32, 82, 32, 62, 62, 32, 62, 62, 32,
+  62, 62, 10, 101, 110, 100, 111, 98, 106, 10, 52, 32, 48, 32, 111, 98, 106, 10, 60, 60, 32, 47, 76, 101, 110,
+  103, 116, 104, 32, 49, 55, 32, 62, 62, 10, 115, 116, 114, 101, 97, 109, 10, 66, 84, 32, 40, 72, 105, 41, 32,
+  84, 106, 32, 69, 84, 32, 113, 32, 81, 10, 101, 110, 100, 115, 116, 114, 101, 97, 109, 10, 101, 110, 100, 111,
+  98, 106, 10, 53, 32, 48, 32, 111, 98, 106, 10, 60, 60, 32, 47, 84, 121, 112, 101, 32, 47, 70, 111, 110, 116,
+  32, 47, 83, 117, 98, 116, 121, 112, 101, 32, 47, 84, 121, 112, 101, 49, 32, 47, 66, 97, 115, 101, 70, 111,
+  110, 116, 32, 47, 72, 101, 108, 118, 101, 116, 105, 99, 97, 32, 62, 62, 10, 101, 110, 100, 111, 98, 106, 10,
+  120, 114, 101, 102, 10, 48, 32, 54, 10, 48, 48, 48, 48, 48, 48, 48, 48, 48, 48, 32, 54, 53, 53, 51, 53, 32,
+  102, 32, 10, 48, 48, 48, 48, 48, 48, 48, 48, 48, 57, 32, 48, 48, 48, 48, 48, 32, 110, 32, 10, 48, 48, 48, 48,
+  48, 48, 48, 48, 53, 56, 32, 48, 48, 48, 48, 48, 32, 110, 32, 10, 48, 48, 48, 48, 48, 48, 48, 49, 49, 53, 32,
+  48, 48, 48, 48, 48, 32, 110, 32, 10, 48, 48, 48, 48, 48, 48, 48, 50, 51, 55, 32, 48, 48, 48, 48, 48, 32, 110,
+  32, 10, 48, 48, 48, 48, 48, 48, 48, 51, 48, 52, 32, 48, 48, 48, 48, 48, 32, 110, 32, 10, 116, 114, 97, 105,
+  108, 101, 114, 10, 60, 60, 32, 47, 83, 105, 122, 101, 32, 54, 32, 47, 82, 111, 111, 116, 32, 49, 32, 48, 32,
+  82, 32, 62, 62, 10, 115, 116, 97, 114, 116, 120, 114, 101, 102, 10, 51, 55, 52, 10, 37, 37, 69, 79, 70, 10]
+
+example : tinyDoc.length < 2 ^ 62 := by decide +kernel
+
+/-- what the loader leaves behind for `tinyDoc` -/
+def tinyLoaded : Pipeline.LoadedE :=
+  match Pipeline.parseDataE tinyDoc with
+  | .ok l => l
+  | _ => ⟨[], (0, 0), false, 0, 0⟩
+
+def tinyRoot : Obj.Obj := (ObjStm.defsGet tinyLoaded.root tinyLoaded.defs).getD .null
+
+-- the loader accepts it: root 1 0, five definitions, not encrypted, nesting depth back at 0 of 50
+example : (match Pipeline.parseDataE tinyDoc with
+    | .ok l => l.root == (1, 0) && l.defs.length == 5 && !l.enc && l.cur == 0 && l.max == 50
+    | _ => false) = true := by decide +kernel
+-- dump_root finishes within its budget
+example : (match Pipeline.dumpRoot tinyLoaded.enc tinyLoaded.defs tinyRoot with | .ok _ => true | _ => false) = true := by
+  decide +kernel
+-- the shipped specification accepts its catalog (so the non-panic theorem is not about a machine that always rejects)
+set_option maxRecDepth 100000 in
+example : Pipeline.typeCheck (Pipeline.toGraph tinyLoaded.defs) (Pipeline.toTC tinyRoot) = .accept := by decide +kernel
+-- the page DOM has its one page
+example : (match PageDom.toPageDom tinyLoaded.defs tinyRoot with | .ok (_, dom) => dom.pages.length == 1 | _ => false) = true := by
+  decide +kernel
+-- the traversal budget on a cyclic graph: `1 0 obj [1 0 R]`
+example : (match Pipeline.dumpRoot false [((1, 0), .arr [.ref 1 0])] (.arr [.ref 1 0]) with | .ok _ => true | _ => false) = true := by
+  decide +kernel
 
 end Parsley.C01
